@@ -16,8 +16,9 @@
 //!   `reqs b t:i:s:q@p ...`  order requests b's strategy issued (with the price it read)
 //!   `own b 1`               b's summary equals a synchronous replay of b's own observed feed through
 //!                           a fresh real Engine (the summary is a function of that engine's feed)
-//!   `alone b 1`             seen/inst/reqs of the concurrent run equal those of b run alone, and the
-//!                           summaries agree whenever both engines processed the same account events
+//!   `alone b 1`             seen/inst/reqs AND the summary (realised PnL per instrument, final balances)
+//!                           and final positions of the concurrent run equal those of b run alone on
+//!                           the same kind of runtime (`0` otherwise, with a `# differs` note)
 use barter::{
     EngineEvent,
     backtest::{
@@ -673,20 +674,38 @@ fn run() {
                         let (rs, rpos, rbal) = replay_feed(s, sink);
                         let own = rs == conc.summaries[b] && rpos == sink.positions && rbal == sink.balances;
                         lines.push(format!("own {b} {}", own as u8));
-                        // alone
-                        let alone = run_concurrent(s, &[b], w);
-                        let a = &alone.sinks[0];
-                        let same_seen = market_ids(&a.log) == seen && a.inst == sink.inst && a.reqs == sink.reqs;
-                        let mut ta = account_tags(&a.log);
-                        let mut tc = account_tags(&sink.log);
-                        ta.sort();
-                        tc.sort();
-                        let same_acc = ta == tc;
-                        let same_sum = alone.summaries[0] == conc.summaries[b] && a.positions == sink.positions;
-                        lines.push(format!("alone {b} {}", (same_seen && (!same_acc || same_sum)) as u8));
+                        // alone: on the same kind of runtime, on a current-thread and on a 4-worker
+                        // runtime (the property quantifies over thread counts and interleavings)
+                        let mut shapes = vec![w, 0, 4];
+                        shapes.dedup();
+                        let mut all_same = true;
+                        let mut last = None;
+                        for shape in shapes {
+                            let alone = run_concurrent(s, &[b], shape);
+                            let a = &alone.sinks[0];
+                            let same_seen = market_ids(&a.log) == seen && a.inst == sink.inst && a.reqs == sink.reqs;
+                            // fills / final positions / balances / realised PnL as the engine reports them
+                            let same_sum = alone.summaries[0] == conc.summaries[b]
+                                && a.positions == sink.positions
+                                && a.balances == sink.balances;
+                            if !(same_seen && same_sum) && all_same {
+                                all_same = false;
+                                last = Some(format!(
+                                    "# differs b={b} concurrent({n} on {w} workers): pos={:?} {} account-events-seen={:?} | alone({shape} workers): pos={:?} {} account-events-seen={:?}",
+                                    sink.positions, conc.summaries[b], account_tags(&sink.log),
+                                    a.positions, alone.summaries[0], account_tags(&a.log)
+                                ));
+                            }
+                            if verbose {
+                                lines.push(format!("# alone({shape}) b={b} feed={:?} pos={:?} bal={:?} sum={}", a.log, a.positions, a.balances, alone.summaries[0]));
+                            }
+                        }
+                        lines.push(format!("alone {b} {}", all_same as u8));
+                        if let Some(note) = last {
+                            lines.push(note);
+                        }
                         if verbose {
                             lines.push(format!("# conc  b={b} feed={:?} pos={:?} bal={:?} sum={}", sink.log, sink.positions, sink.balances, conc.summaries[b]));
-                            lines.push(format!("# alone b={b} feed={:?} pos={:?} bal={:?} sum={}", a.log, a.positions, a.balances, alone.summaries[0]));
                         }
                     }
                     let _ = s.n_events;
@@ -697,15 +716,77 @@ fn run() {
     });
 }
 
-fn generate(_seed: u64, _n_cases: usize, _tier: &str) {
+fn gen_case(out: &mut Out, rng: &mut Rng, id: &str, len: usize, runs: &[(usize, usize)]) {
+    out.case(id);
+    let k = rng.range(1, 3) as usize;
+    // few distinct prices per instrument, so that requests collide on price
+    let base: Vec<i64> = (0..k).map(|j| 50 + 50 * j as i64).collect();
+    let mut line = format!("data {k}");
+    for _ in 0..len {
+        let i = rng.below(k as u64) as usize;
+        let p = base[i] + rng.range(0, 3);
+        line.push_str(&format!(" {i}:{p}"));
+    }
+    out.line(line);
+    let n_strats = rng.range(1, 3);
+    for s in 0..n_strats {
+        // the first parameterisation of every other case is passive (the repo's own example)
+        if (s == 0 && rng.chance(50)) || rng.chance(20) {
+            out.line("strat -");
+            continue;
+        }
+        let items = rng.range(1, 4);
+        let mut line = String::from("strat");
+        for _ in 0..items {
+            // triggers collide, sit at the very start, in the middle and on the last event
+            let trigger = match rng.below(4) {
+                0 => 1,
+                1 => len as i64,
+                _ => rng.range(1, len as i64),
+            };
+            let i = rng.below(k as u64);
+            let side = if rng.chance(70) { "B" } else { "S" };
+            // mostly affordable, sometimes beyond the balance (rejected by the exchange)
+            let qty = if rng.chance(10) { 5000 } else { rng.range(1, 3) };
+            line.push_str(&format!(" {trigger}:{i}:{side}:{qty}"));
+        }
+        out.line(line);
+    }
+    for (n, w) in runs {
+        out.line(format!("run {n} {w}"));
+    }
+}
+
+fn generate(seed: u64, n_cases: usize, tier: &str) {
     let mut out = Out::new();
-    out.case("p1");
-    out.line("data 2 0:100 1:50 0:101 1:51 0:102 0:103 1:52 0:104");
-    out.line("strat -");
-    out.line("strat 1:0:B:1 4:0:S:1");
-    out.line("strat 2:1:B:2");
-    out.line("run 3 0");
-    out.line("run 3 4");
+    let mut rng = Rng::new(seed);
+    let thorough = tier == "thorough";
+    // (concurrent backtests, worker threads; 0 = current-thread runtime)
+    let shapes: &[(usize, usize)] = if thorough {
+        &[(1, 0), (1, 1), (2, 1), (2, 4), (8, 1), (8, 4), (8, 8), (32, 4), (32, 8), (2, 0), (8, 0)]
+    } else {
+        &[(1, 0), (1, 1), (2, 1), (2, 4), (8, 1), (8, 4), (8, 8), (2, 0)]
+    };
+    for c in 0..n_cases {
+        // sizes: mostly small (collisions, every trigger position), regularly a dataset long enough
+        // for execution responses to race the market forwarder and the Shutdown
+        let len = match rng.below(10) {
+            0..=4 => rng.range(1, 12) as usize,
+            5..=6 => rng.range(13, 60) as usize,
+            7..=8 => rng.range(200, 800) as usize,
+            _ => rng.range(1000, if thorough { 4000 } else { 2000 }) as usize,
+        };
+        let n_runs = if thorough { 3 } else { 2 };
+        let mut runs = Vec::new();
+        for _ in 0..n_runs {
+            runs.push(*rng.pick(shapes));
+        }
+        // every case compares at least one genuinely concurrent multi-thread run
+        if !runs.iter().any(|(n, w)| *n >= 2 && *w >= 2) {
+            runs.push(if thorough && c % 4 == 0 { (32, 8) } else { (8, 4) });
+        }
+        gen_case(&mut out, &mut rng, &format!("r{}", c + 1), len, &runs);
+    }
     out.flush();
 }
 
